@@ -364,7 +364,8 @@ def run_property(pid: str, tier: str, seed: int) -> int:
             exit_code = 1
 
     # ---- generated search, sharded over processes -----------------------------------
-    jobs = [(pid, tier, seed, i, shards, per_shard, True, True) for i in range(shards)]
+    # (EQLV_NO_SHRINK / EQLV_MAX_REPORTS: used by ./selftest only, where one unshrunk failure per patch is enough)
+    jobs = [(pid, tier, seed, i, shards, per_shard, True, not os.environ.get("EQLV_NO_SHRINK")) for i in range(shards)]
     nproc = min(shards, int(os.environ.get("EQLV_PROCS", "16")))
     ctx = mp.get_context("fork")
     if nproc <= 1:
@@ -404,7 +405,7 @@ def run_property(pid: str, tier: str, seed: int) -> int:
     found_dir = os.path.join(os.environ.get("EQLV_FOUND_DIR") or os.path.join(VERIF_DIR, "found"), pid)
     seen_buckets = set()
     confirmed, unconfirmed = [], []
-    MAX_REPORTS = 8
+    MAX_REPORTS = int(os.environ.get("EQLV_MAX_REPORTS", "8"))
     # smallest cases first: they make the best replays
     merged["failures"].sort(key=lambda f: len(json.dumps(f["case"], default=str)))
     for f in merged["failures"]:
